@@ -5,7 +5,36 @@ open Driver
 let opt_s (o : n list option) : string list =
   match o with Some v -> ["some"; hex_of_bstr v] | None -> ["none"]
 
+(* canonical text of a JSON value (Spec/Json.v jvalue): numbers as the exact normalised decimal *)
+let rec canon_jv (j : jvalue) : string =
+  match j with
+  | JNull -> "null"
+  | JBool true -> "true"
+  | JBool false -> "false"
+  | JNum (neg, m, e) -> "#" ^ (if neg then "-" else "") ^ string_of_n m ^ "e" ^ string_of_z e
+  | JStr s -> "\"" ^ (if s = [] then "" else hex_of_bstr s) ^ "\""
+  | JArr l -> "[" ^ String.concat "," (List.map canon_jv l) ^ "]"
+  | JObj m -> "{" ^ String.concat "," (List.map (fun (k, x) -> "\"" ^ (if k = [] then "" else hex_of_bstr k) ^ "\":" ^ canon_jv x) m) ^ "}"
+
 let () =
+  (* json of a value (sexp, possibly several fields): Model/JsonEncode.v on the tree's nil-collection flag *)
+  register "c16_json" (fun a ->
+    let v = Sexp_ast.value_of (Sexp.parse (String.concat " " a)) in
+    outcome_s (fun s -> [hex_of_bstr s]) (json_encode json_nil_null v));
+  (* the Spec reader on a text: canonical form of the value, or none *)
+  register "json_canon" (fun a -> match a with
+    | [s] -> (match json_parse (bstr_of_hex s) with
+              | Some j -> ["some"; hex_of_bstr (bstr_of_string (canon_jv j))]
+              | None -> ["none"])
+    | _ -> failwith "json_canon: arity");
+  (* the theorem's statement evaluated on one value: json_parse (json_encode v) = jv_of_value v *)
+  register "c16_json_rt" (fun a ->
+    let v = Sexp_ast.value_of (Sexp.parse (String.concat " " a)) in
+    match json_encode json_nil_null v with
+    | Ok s -> (match json_parse s, jv_of_value v with
+               | Some j, Some j' -> [if j = j' then "same" else "differ"]
+               | _, _ -> ["none"])
+    | _ -> ["noenc"]);
   register "is_print" (fun a -> match a with [r] -> [bool_s (is_print_tbl (n_of_int (int_field r)))] | _ -> failwith "is_print: arity");
   register "js_escape" (fun a -> match a with [s] -> [hex_of_bstr (js_escape is_print_tbl (bstr_of_hex s))] | _ -> failwith "js_escape: arity");
   register "json_string" (fun a -> match a with [s] -> [hex_of_bstr (json_string (bstr_of_hex s))] | _ -> failwith "json_string: arity");
@@ -27,7 +56,7 @@ let () =
           | [] -> Ok v
           | (nm, args) :: rest ->
               let r =
-                if name_is nm "escapeJsString" then Ok (js_escape is_print_tbl v)
+                if name_is nm "escapeJsString" then Ok (js_escape_soy jsstr_pair_html is_print_tbl v)
                 else if name_is nm "json" then Ok (json_string v)
                 else if name_is nm "escapeUri" then Ok (escape_uri v)
                 else if name_is nm "escapeHtml" then Ok (tmpl_html_escape v)
